@@ -155,6 +155,29 @@ def build_pktz(hname, dw, K):
              cfg=dict(header=hname, header_def=HEADERS[hname], data_width=dw), show=m.showl, vcycles=30, excuses=exc)
 
 
+def build_pktz_progress(hname, dw, K):
+    """a cooperative environment (producer offers a 2-beat packet at once, consumer always ready): the packet leaves within K-2 cycles"""
+    m = PktzMon(hname, dw)
+    sink, source = m.dut.sink, m.dut.source
+    coop = Signal(name_override="asm_cooperative")
+    started = m.reg(1, "started")
+    m.sync += started.eq(1)
+    bi = m.reg(2, "beats_in")
+    m.sync += If(sink.valid & sink.ready, If(sink.last, bi.eq(0)).Elif(bi != 3, bi.eq(bi + 1)))
+    # frame 0 carries reset values; packets are 2 beats long (last on the second beat)
+    m.comb += coop.eq(~started | (sink.valid & source.ready & (sink.last == (bi >= 1))))
+    t = m.reg(5, "cycles")
+    m.sync += If(t != 31, t.eq(t + 1))
+    outp = m.reg(1, "packet_out")
+    m.sync += If(source.valid & source.ready & source.last, outp.eq(1))
+    bad = Signal(name_override="bad_no_packet_emitted")
+    m.comb += bad.eq((t >= K - 2) & ~outp)
+    w = Signal(name_override="w_cycles_elapsed")
+    m.comb += w.eq(t >= K - 2)
+    return H("packetizer_progress_%s_d%d" % (hname, dw), m, m.free, rigid=[m.B], assume=[m.pc.asm, m.no_ovf, coop], bad=dict(packet_emitted_under_cooperative_environment=bad),
+          witness=dict(bound_reached=w), K=K, funcs=FUNCS, cfg=dict(header=hname, header_def=HEADERS[hname], data_width=dw), show=m.showl, vcycles=30)
+
+
 class RoundTrip(Mon):
     def __init__(self, hname, dw, cw=4):
         from litex.soc.interconnect import packet
@@ -332,10 +355,13 @@ def jobs(tier):
     js = []
     cfgs = [("h2", 8), ("h4", 32), ("h6", 32), ("h3", 16)]
     if T:
-        cfgs += [("h1", 16), ("h6s", 16), ("h4", 16), ("h2", 16), ("h6s", 32), ("h3", 8)]
+        cfgs += [("h6s", 16), ("h4", 16), ("h2", 16), ("h6s", 32), ("h3", 8)]
     for (hn, dw) in cfgs:
         js.append(Job("packetizer_%s_d%d" % (hn, dw), build_pktz, dict(hname=hn, dw=dw, K=K), cost=10))
         js.append(Job("roundtrip_%s_d%d" % (hn, dw), build_rt, dict(hname=hn, dw=dw, K=K + 2), cost=15))
+    # progress under a cooperative environment, incl. a header SHORTER than a bus word (1 byte on a 16-bit bus)
+    js.append(Job("packetizer_progress_h2_d8", build_pktz_progress, dict(hname="h2", dw=8, K=14), cost=3))
+    js.append(Job("packetizer_progress_h1_d16", build_pktz_progress, dict(hname="h1", dw=16, K=14), cost=3))
     js.append(Job("packetfifo_d4_pNone", build_pfifo, dict(depth=4, param_depth=None, buffered=False, K=K), cost=10))
     js.append(Job("packetfifo_d4_p2", build_pfifo, dict(depth=4, param_depth=2, buffered=False, K=K), cost=10))
     if T:
